@@ -292,6 +292,13 @@ def run(tier, seed):
         hjobs.append(("event", json.dumps(v)))
         hjobs.append(("event", json.dumps({"data": v, "context": {"StateMachine": {"Id": "arn:aws:states:local:0123456789:stateMachine:h"}, "State": v}})))
         hjobs.append(("event", json.dumps({"data": {}, "context": {"StateMachine": {"Id": "arn:aws:states:local:0123456789:stateMachine:h"}, "State": {"Name": "HT"}, "Execution": v}})))
+    # events for a state in the middle of an execution (as the engine publishes them) whose Execution context is incomplete or odd,
+    # in and outside a branch
+    HX = "arn:aws:states:local:0123456789:execution:h:poison"
+    for ex in ({"Id": HX}, {"Id": HX, "Input": {}}, {"Id": HX, "StartTime": "2030-03-17T17:46:40+00:00"}, {"Id": HX, "Input": {}, "StartTime": "not-a-time"},
+               {"Id": "weird", "Input": {}, "StartTime": "2030-03-17T17:46:40+00:00"}, {"Id": 5, "Input": {}, "StartTime": "2030-03-17T17:46:40+00:00"}, {"Input": {}}):
+        for st in ({"Name": "HT"}, {"Name": "HZ"}, {"Name": "HT", "Branch": [{"Parent": "HA", "ID": "x", "Index": 0, "Length": 1, "Input": {}}]}):
+            hjobs.append(("event", json.dumps({"data": {}, "context": {"StateMachine": {"Id": "arn:aws:states:local:0123456789:stateMachine:h"}, "State": st, "Execution": ex}})))
     for raw in ('{"data": "caf\u00e9", "context": {}}'.encode("latin-1"), '{"data": {}, "context": {}}'.encode("utf-16"), b"\x1f\x8b\x08\x00\xfe\xff\x80\x81", b"\xff", b"\xc3"):
         hjobs.append(("event-bytes", raw.hex()))
     ctx = multiprocessing.get_context("fork")
